@@ -53,6 +53,21 @@ def make_table(spec):
     if cols:
         data = {c: data[c] for c in cols}
     df = pd.DataFrame(data, index=make_index(kind, n, r))
+    if spec.get("poke"):
+        r_, c_, dv = spec["poke"]
+        if c_ in df.columns:
+            col = df.columns.get_loc(c_)
+            if isinstance(dv, str):
+                df.iloc[r_ % n, col] = dv
+            else:
+                df.iloc[r_ % n, col] = df.iloc[r_ % n, col] + dv if not pd.isna(df.iloc[r_ % n, col]) else dv
+    if spec.get("poke_index"):
+        idx = df.index.tolist()
+        last = idx[-1]
+        idx[-1] = last + 1 if isinstance(last, (int, float, np.integer, np.floating)) else (last + pd.Timedelta(hours=1) if isinstance(last, pd.Timestamp) else str(last) + "z")
+        df.index = pd.Index(idx, name=df.index.name)
+    if spec.get("astype"):
+        df = df.astype({k: v for k, v in spec["astype"].items() if k in df.columns})
     for j in range(int(spec.get("extra", 0))):
         # extra columns no query mentions (C04 widening); every dtype in turn
         kindj = j % 4
